@@ -8,6 +8,7 @@ additive over concatenation; the additivity axiom is instantiated at every conca
 decomposition the code performs (a "measure" over string concatenation).
 """
 import ast
+import os
 
 try:
     import z3
@@ -30,7 +31,9 @@ def _s(v):
 
 
 def _fresh(interp, base):
-    return interp.st.fresh_str(base)
+    c = interp.st.fresh_str(base)
+    interp.st.ghost.setdefault('__pieces__', {})[c.get_id()] = c
+    return c
 
 
 # ------------------------------------------------------------------------------ counting measure
@@ -48,9 +51,20 @@ def count_fn(interp, ch):
         interp.st.assume(f(z3.StringVal('')) == 0)
         interp.st.assume(f(z3.StringVal(ch)) == 1)
         # additivity over every concatenation / decomposition performed so far
-        for whole, parts in list(interp.st.ghost.get('__concats__', [])):
-            note_concat(interp, whole, parts, only=ch)
+        replay_concats(interp, lambda whole, parts: note_concat(interp, whole, parts, only=ch))
     return f
+
+
+def replay_concats(interp, fn):
+    """call fn(whole, parts) for every concatenation noted so far, under the merge scopes it was noted in"""
+    st = interp.st
+    saved = st.scopes
+    try:
+        for whole, parts, scopes in list(st.ghost.get('__concats__', [])):
+            st.scopes = list(scopes)
+            fn(whole, parts)
+    finally:
+        st.scopes = saved
 
 
 def _count_facts(interp, f, ch, t):
@@ -69,7 +83,9 @@ def _count_facts(interp, f, ch, t):
 def note_concat(interp, whole, parts, only=None):
     """whole == concat(parts): instantiate additivity of every active counting function."""
     if only is None:
-        interp.st.ghost.setdefault('__concats__', []).append((whole, list(parts)))
+        interp.st.ghost.setdefault('__concats__', []).append((whole, list(parts), tuple(interp.st.scopes)))
+        from . import charclass
+        charclass.note_concat(interp, whole, parts)
     fns = _count_fns(interp)
     if not fns:
         return
@@ -118,19 +134,28 @@ def _cat(pieces):
     return z3.Concat(*pieces)
 
 
-def _tag(interp, pieces):
-    """remember the merge scopes a decomposition was established under: its defining facts are only assumed
-    under them, so it may only be used (for rewriting / piece sharing) where they are still in force"""
-    interp.st.ghost.setdefault('__decomp_scopes__', {})[id(pieces)] = (frozenset(x.get_id() for x in interp.st.scopes),
-                                                                       pieces)
-    return pieces
+class Dec(list):
+    """A decomposition (list of pieces) of a string term, valid under the merge scopes it was created in
+    (decompositions made while evaluating the right operand of a merged `and`/`or` hold only there)."""
+    scopes = ()
 
 
-def _visible(interp, pieces):
-    ent = interp.st.ghost.get('__decomp_scopes__', {}).get(id(pieces))
-    if ent is None:
+def _dec(interp, pieces, *parents):
+    d = Dec(pieces)
+    sc = {x.get_id(): x for x in interp.st.scopes}
+    for par in parents:
+        for x in getattr(par, 'scopes', ()):
+            sc[x.get_id()] = x
+    d.scopes = tuple(sc.values())
+    return d
+
+
+def _visible(interp, dec):
+    sc = getattr(dec, 'scopes', ())
+    if not sc:
         return True
-    return ent[0] <= frozenset(x.get_id() for x in interp.st.scopes)
+    st = interp.st
+    return all(st.is_established(x) for x in sc)
 
 
 def _decomps(interp, t):
@@ -141,8 +166,12 @@ def _decomps(interp, t):
         d[t.get_id()] = ent
         fl = _flat_concat(t)
         if len(fl) > 1:
-            ent[1].append(fl)
+            ent[1].append(Dec(fl))
     return ent[1]
+
+
+def _visible_decomps(interp, t):
+    return [d for d in _decomps(interp, t) if _visible(interp, d)]
 
 
 def norm(interp, t, depth=0):
@@ -160,7 +189,7 @@ def norm(interp, t, depth=0):
     ent = d.get(t.get_id())
     if ent is None or not ent[1]:
         return t
-    vis = [p for p in ent[1] if _visible(interp, p)]
+    vis = [x for x in ent[1] if _visible(interp, x)]
     if not vis:
         return t
     pieces = vis[-1]
@@ -189,29 +218,65 @@ def cut(interp, t, a, base='piece'):
         sv = t.as_string()
         return z3.StringVal(sv[:a.as_long()]), z3.StringVal(sv[a.as_long():])
     decs = _decomps(interp, t)
-    for pieces in [p for p in decs if _visible(interp, p)]:
+    for pieces in _visible_decomps(interp, t):
         off = z3.IntVal(0)
         offs = [off]
         for p in pieces:
             off = z3.simplify(off + _len_of(p))
             offs.append(off)
         for j, o in enumerate(offs):
-            if o.eq(a) or (j > 0 and st.must_hold(o == a)):
+            if o.eq(a) or (j > 0 and st.must_hold_lengths(o == a)):
                 return _cat(pieces[:j]), _cat(pieces[j:])
         # inside a piece?
         for j, p in enumerate(pieces):
             if z3.is_string_value(p) and len(p.as_string()) <= 1:
                 continue
-            if st.must_hold(z3.And(offs[j] <= a, a <= offs[j + 1])):
+            if st.must_hold_lengths(z3.And(offs[j] <= a, a <= offs[j + 1])):
                 pa, pb = cut(interp, p, z3.simplify(a - offs[j]), base)
                 refined = pieces[:j] + [x for x in (pa, pb)] + pieces[j + 1:]
-                decs.append(_tag(interp, refined))
+                decs.append(_dec(interp, refined, pieces))
                 return _cat(pieces[:j] + [pa]), _cat([pb] + pieces[j + 1:])
+    if st.ghost.get('__align__') and not st.no_fork:
+        vis = _visible_decomps(interp, t)
+        if vis and len(vis[-1]) > 1:
+            # The position is not located among the known pieces by lengths alone: case split on where it
+            # falls in the most refined decomposition (boundaries and interiors that the length abstraction
+            # does not exclude), then cut there.  Keeps one shared set of pieces per string.
+            pieces = vis[-1]
+            off = z3.IntVal(0)
+            offs = [off]
+            for pc_ in pieces:
+                off = z3.simplify(off + _len_of(pc_))
+                offs.append(off)
+            alts = []
+            for j in range(1, len(offs)):
+                alts.append(offs[j] == a)
+            for j, pc_ in enumerate(pieces):
+                if z3.is_string_value(pc_) and len(pc_.as_string()) <= 1:
+                    continue
+                if pc_.get_id() in st.ghost.get('__len1__', {}):
+                    continue
+                alts.append(z3.And(offs[j] < a, a < offs[j + 1]))
+            other = z3.Not(z3.Or(*alts)) if alts else None      # (e.g. position 0: no piece is cut)
+            alts = [c for c in alts if st._len_check(c) != z3.unsat]
+            if alts:
+                depth = st.ghost.get('__align_depth__', 0)
+                if depth < 4:
+                    st.ghost['__align_depth__'] = depth + 1
+                    try:
+                        all_alts = alts + ([other] if st._len_check(other) != z3.unsat else [])
+                        k = st.choose(len(all_alts), all_alts, assume_feasible=True)
+                        if k < len(alts):
+                            return cut(interp, t, a, base)
+                    finally:
+                        st.ghost['__align_depth__'] = depth
     p = _fresh(interp, base)
     q = _fresh(interp, base)
     st.assume(t == z3.Concat(p, q))
     st.assume(z3.Length(p) == a)
-    decs.append(_tag(interp, [p, q]))
+    if z3.is_int_value(a) and a.as_long() == 1:
+        known_single_char(interp, p)
+    decs.append(_dec(interp, [p, q]))
     note_concat(interp, t, [p, q])
     return p, q
 
@@ -261,7 +326,9 @@ def _decompose_free(interp, t, lens, base):
     for p, n in zip(pieces, lens):
         if n is not None:
             st.assume(z3.Length(p) == _z(n))
-    _decomps(interp, t).append(_tag(interp, list(pieces)))
+            if isinstance(n, int) and n == 1:
+                known_single_char(interp, p)
+    _decomps(interp, t).append(_dec(interp, list(pieces)))
     note_concat(interp, t, pieces)
     return pieces
 
@@ -276,11 +343,11 @@ def _norm_index(i, L, interp=None):
         return i
     if interp is not None:
         st = interp.st
-        if st.must_hold(i >= 0):
-            if st.must_hold(i <= L):
+        if st.must_hold_lengths(i >= 0):
+            if st.must_hold_lengths(i <= L):
                 return i
             return z3.If(i > L, L, i)
-        if st.must_hold(i < 0) and st.must_hold(i + L >= 0):
+        if st.must_hold_lengths(i < 0) and st.must_hold_lengths(i + L >= 0):
             return i + L
     return z3.If(i < 0, z3.If(i + L < 0, 0, i + L), z3.If(i > L, L, i))
 
@@ -296,9 +363,16 @@ def getitem(interp, s, idx):
         a = z3.IntVal(0) if idx.start is None else z3.simplify(_norm_index(idx.start, L, interp))
         b = z3.simplify(L) if idx.stop is None else z3.simplify(_norm_index(idx.stop, L, interp))
         key = (t.get_id(), a.sexpr(), b.sexpr())
-        if key in cache and cache[key][2] <= frozenset(x.get_id() for x in st.scopes):
+        if key in cache and _visible(interp, cache[key][2]):
             return cache[key][0]
-        if st.must_hold(b >= a):
+        # a slice of the same string whose bounds are provably (by lengths) the same: the same value
+        # (only with string alignment switched on: costs two length questions per cached slice)
+        for k2, ent in (list(cache.items()) if st.ghost.get('__align__') else ()):
+            if k2[0] == t.get_id() and len(ent) > 3 and _visible(interp, ent[2]):
+                a2, b2 = ent[3]
+                if (a2.eq(a) or st.must_hold_lengths(a2 == a)) and (b2.eq(b) or st.must_hold_lengths(b2 == b)):
+                    return ent[0]
+        if st.must_hold_lengths(b >= a):
             mid_len = z3.simplify(b - a)
             a_len = a
         else:
@@ -313,7 +387,7 @@ def getitem(interp, s, idx):
         else:
             p, m, r = decompose(interp, t, [a_len, mid_len, None], 'slice')
             res = wrap(m)
-        cache[key] = (res, t, frozenset(x.get_id() for x in st.scopes))
+        cache[key] = (res, t, _dec(interp, []), (a, b))
         return res
     i = _s(idx)
     if st.fork(wrap(z3.And(i >= 0, i < L))):
@@ -327,46 +401,82 @@ def getitem(interp, s, idx):
 
 # ------------------------------------------------------------------------------ searching
 
+def _occurrence(interp, t, u, reverse, base):
+    """t contains u: pieces (p, q) with t == p . u . q where the occurrence is the first (last if reverse) one.
+    For a constant u the constant itself is the middle piece and "no earlier occurrence" is stated as
+    `u not in p . u[:-1]` (`u not in u[1:] . q`), which characterises the position without IndexOf."""
+    st = interp.st
+    if z3.is_string_value(u) and not _has_escape_val(u) and len(u.as_string()) >= 1:
+        uv = u.as_string()
+        p = _fresh(interp, base)
+        q = _fresh(interp, base)
+        st.assume(t == z3.Concat(p, u, q))
+        _decomps(interp, t).append(_dec(interp, [p, u, q]))
+        note_concat(interp, t, [p, u, q])
+        if reverse:
+            st.assume(z3.Not(z3.Contains(_cat([z3.StringVal(uv[1:]), q]), u)))
+        else:
+            st.assume(z3.Not(z3.Contains(_cat([p, z3.StringVal(uv[:-1])]), u)))
+        return p, u, q
+    p, m, q = decompose(interp, t, [None, None, None], base)
+    st.assume(m == u)
+    if reverse:
+        st.assume(z3.LastIndexOf(t, u) == z3.Length(p))
+    else:
+        st.assume(z3.IndexOf(t, u, 0) == z3.Length(p))
+    return p, m, q
+
+
 def _find(interp, s, sub, start, reverse, raise_on_missing):
+    """find / rfind / index / rindex.  The result for the same (string, pattern, start) terms is computed once
+    per path (the pieces of the first evaluation are re-used), so that code and clauses that search for the
+    same thing talk about the same pieces."""
+    st = interp.st
+    t = _s(s)
+    u = _s(sub)
+    cache = st.ghost.setdefault('__finds__', {})
+    key = (t.get_id(), u.sexpr(), None if start is None else z3.simplify(_s(start)).sexpr(), bool(reverse))
+    ent = cache.get(key)
+    if ent is not None and _visible(interp, ent[1]):
+        r = ent[0]
+        if isinstance(r, int) and r == -1 and raise_on_missing:
+            raise _pyraise(ValueError('substring not found'))
+        return r
+    try:
+        r = _find_uncached(interp, s, sub, start, reverse, False)
+    except BaseException:
+        raise
+    cache[key] = (r, _dec(interp, []), t)
+    if isinstance(r, int) and r == -1 and raise_on_missing:
+        raise _pyraise(ValueError('substring not found'))
+    return r
+
+
+def _find_uncached(interp, s, sub, start, reverse, raise_on_missing):
     st = interp.st
     t = _s(s)
     u = _s(sub)
     if start is not None:
         a = _norm_index(start, z3.Length(t), interp)
         pre, rest = decompose(interp, t, [z3.simplify(a), None], 'from')
+        n_before = len(_decomps(interp, rest)) if z3.is_expr(rest) else 0
         r = _find(interp, wrap(rest), sub, None, reverse, raise_on_missing)
         if isinstance(r, int) and r == -1:
             return -1
+        # the occurrence found in the tail is also a decomposition of the whole string
+        if z3.is_expr(rest):
+            ds = _decomps(interp, rest)
+            if len(ds) > n_before and not (z3.is_string_value(pre) and pre.as_string() == ''):
+                _decomps(interp, t).append(_dec(interp, _flat_concat(pre) + list(ds[-1]), ds[-1]))
         return wrap(_s(r) + z3.Length(pre)) if not (isinstance(r, int) and r == -1) else -1
+    from . import charclass
+    charclass.contains_link_pattern(interp, t, u)
     if not st.fork(wrap(z3.Contains(t, u))):
         if raise_on_missing:
             raise _pyraise(ValueError('substring not found'))
         return -1
-    p, m, q = _first_occurrence(interp, t, u, reverse, 'find')
+    p, m, q = _occurrence(interp, t, u, reverse, 'find')
     return wrap(z3.Length(p))
-
-
-def _first_occurrence(interp, t, u, reverse, base):
-    """pieces (p, m, q) with t == p . m . q, m == u the first (last) occurrence of u in t; requires that t
-    contains u (established by the caller).  Searching the same string for the same needle again gives the
-    SAME pieces (their defining facts are already on the path), so that two `find`s agree syntactically."""
-    st = interp.st
-    cache = st.ghost.setdefault('__occurrences__', {})
-    key = (t.get_id(), u.sexpr(), bool(reverse))
-    ent = cache.get(key)
-    if ent is not None and ent[0] <= frozenset(x.get_id() for x in st.scopes):
-        return ent[1]
-    p, m, q = decompose(interp, t, [None, None, None], base)
-    st.assume(m == u)
-    single = z3.is_string_value(u) and len(u.as_string()) == 1
-    if single:
-        st.assume(z3.Not(z3.Contains(q if reverse else p, u)))
-    elif reverse:
-        st.assume(z3.LastIndexOf(t, u) == z3.Length(p))
-    else:
-        st.assume(z3.IndexOf(t, u, 0) == z3.Length(p))
-    cache[key] = (frozenset(x.get_id() for x in st.scopes), (p, m, q), t)
-    return p, m, q
 
 
 def _split_once(interp, s, sep, reverse=False):
@@ -376,7 +486,7 @@ def _split_once(interp, s, sep, reverse=False):
     u = _s(sep)
     if not st.fork(wrap(z3.Contains(t, u))):
         return False, wrap(t), None
-    p, m, q = _first_occurrence(interp, t, u, reverse, 'split')
+    p, m, q = _occurrence(interp, t, u, reverse, 'split')
     return True, wrap(p), wrap(q)
 
 
@@ -395,28 +505,8 @@ def _strip(interp, s, chars, left, right):
     st = interp.st
     t = _s(s)
     if chars is None:
-        # white space = the characters for which isspace() holds (an uninterpreted predicate here):
-        # s == a . r . b, a and b are white space only, r neither starts (left) nor ends (right) with one
-        kind = ('l' if left else '') + ('r' if right else '')
-        f = z3.Function('str.%sstrip[ws]' % {'lr': '', 'l': 'l', 'r': 'r'}[kind], z3.StringSort(), z3.StringSort())
-        sp = z3.Function('str.isspace', z3.StringSort(), z3.BoolSort())
-        r = f(t)
-        key = ('__strip__', kind, None, t.get_id())
-        if key not in st.ghost:
-            st.ghost[key] = t
-            a = _fresh(interp, 'strip.l') if left else z3.StringVal('')
-            b = _fresh(interp, 'strip.r') if right else z3.StringVal('')
-            st.assume(t == _cat([a, r, b]))
-            st.assume(z3.Not(sp(z3.StringVal(''))))
-            if left:
-                st.assume(z3.Or(a == z3.StringVal(''), sp(a)))
-                st.assume(z3.Or(r == z3.StringVal(''), z3.Not(sp(z3.SubString(r, 0, 1)))))
-            if right:
-                st.assume(z3.Or(b == z3.StringVal(''), sp(b)))
-                st.assume(z3.Or(r == z3.StringVal(''), z3.Not(sp(z3.SubString(r, z3.Length(r) - 1, 1)))))
-            _decomps(interp, t).append([x for x in (a, r, b) if not (z3.is_string_value(x) and x.as_string() == '')])
-            note_concat(interp, t, [a, r, b])
-        return wrap(r)
+        from . import charclass
+        return charclass.strip_space(interp, s, left, right)
     if isinstance(chars, Sym) or not chars:
         raise Unsupported('strip with symbolic character set')
     kind = ('l' if left else '') + ('r' if right else '')
@@ -436,18 +526,48 @@ def _strip(interp, s, chars, left, right):
         if right:
             st.assume(z3.InRe(b, cls))
             st.assume(z3.And(*[z3.Not(z3.SuffixOf(z3.StringVal(c), r)) for c in chars]))
-        _decomps(interp, t).append(_tag(interp, [x for x in (a, r, b) if not (z3.is_string_value(x) and x.as_string() == '')]))
+        _decomps(interp, t).append(_dec(interp, [x for x in (a, r, b) if not (z3.is_string_value(x) and x.as_string() == '')]))
         note_concat(interp, t, [a, r, b])
     return wrap(r)
 
 
 def _upred(interp, name, s):
-    """uninterpreted character-class predicate (isalnum, isspace, ...): consistent, otherwise unknown"""
+    """character-class predicate (isalnum, isspace, ...): uninterpreted, except that its value on the empty
+    string and on every single ASCII character is the one CPython gives (ground facts, computed natively).
+    On one-character strings it is a predicate of the code point (keeps the character facts out of the
+    string theory, which is much faster)."""
     f = z3.Function('str.' + name, z3.StringSort(), z3.BoolSort())
+    g = z3.Function('chr.' + name, z3.IntSort(), z3.BoolSort())
     t = _s(s)
     st = interp.st
-    st.assume(z3.Not(f(z3.StringVal(''))))
-    return wrap(f(t))
+    if z3.is_string_value(t) and not _has_escape_val(t):
+        return bool(getattr(t.as_string(), name)())
+    key = '__upred_facts__' + name
+    if key not in st.ghost:
+        st.ghost[key] = True
+        st.assume(z3.Not(f(z3.StringVal(''))))
+        st.assume(z3.And(*[g(i) if getattr(chr(i), name)() else z3.Not(g(i)) for i in range(128)]))
+    if t.get_id() in st.ghost.get('__len1__', {}):
+        return wrap(g(z3.StrToCode(t)))
+    from . import charclass
+    if name in charclass.ALL_CHARS_PREDICATES:
+        # "there is at least one character and all characters are <name>"
+        return charclass.upred_of_string(interp, name, s)
+    return wrap(z3.If(z3.Length(t) == 1, g(z3.StrToCode(t)), f(t)))
+
+
+def known_single_char(interp, t):
+    """record that the term t is known (assumed) to have length 1"""
+    interp.st.ghost.setdefault('__len1__', {})[t.get_id()] = t
+
+
+def _charval(c):
+    return z3.Unit(z3.CharVal(ord(c))) if hasattr(z3, 'CharVal') else z3.StringVal(c)
+
+
+def _has_escape_val(t):
+    sv = t.as_string()
+    return '\\u{' in sv or '\\x' in sv
 
 
 def call_method(interp, recv, name, args, kwargs):
@@ -457,8 +577,19 @@ def call_method(interp, recv, name, args, kwargs):
     if name in ('startswith', 'endswith'):
         f = z3.PrefixOf if name == 'startswith' else z3.SuffixOf
         x = args[0]
-        if len(args) > 1:
-            raise Unsupported('%s with start/end' % name)
+        if len(args) > 2:
+            raise Unsupported('%s with end' % name)
+        if len(args) == 2:
+            if name == 'endswith':
+                raise Unsupported('endswith with start')
+            # s.startswith(x, start)  ==  start <= len(s) and s[start:].startswith(x)
+            start = args[1]
+            L = z3.Length(t)
+            a = z3.simplify(_norm_index(start, L, interp))
+            if not st.fork(wrap(_s(start) <= L)):
+                return False
+            tail = getitem(interp, recv, slice(wrap(a), None, None))
+            return call_method(interp, tail, name, [x], kwargs)
         tn = norm(interp, t)
         if isinstance(x, tuple):
             return wrap(z3.Or(*[f(_sn(interp, y), tn) for y in x])) if x else False
@@ -680,3 +811,154 @@ def _join_of_base(interp, sep, b):
     if first is not None:
         st.assume(z3.Implies(b.length == 1, t == first))
     return t
+
+
+# ------------------------------------------------------------------------------ forgetting dead pieces
+
+def _consts_of_term(t, acc, seen):
+    todo = [t]
+    while todo:
+        x = todo.pop()
+        i = x.get_id()
+        if i in seen:
+            continue
+        seen.add(i)
+        if z3.is_quantifier(x):
+            todo.append(x.body())
+            continue
+        if z3.is_const(x) and x.decl().kind() == z3.Z3_OP_UNINTERPRETED:
+            acc.add(i)
+        else:
+            todo.extend(x.children())
+
+
+def _consts_of_value(v, acc, seen_terms, seen_objs, depth=0):
+    if depth > 8 or v is None or isinstance(v, (bool, int, str, float, bytes, type)):
+        return
+    if z3.is_expr(v):
+        _consts_of_term(v, acc, seen_terms)
+        return
+    oid = id(v)
+    if oid in seen_objs:
+        return
+    seen_objs.add(oid)
+    if isinstance(v, (SInt, SBool, SStr)):
+        _consts_of_term(v.t, acc, seen_terms)
+        return
+    if isinstance(v, SOpt):
+        _consts_of_term(v.is_none, acc, seen_terms)
+        _consts_of_value(v.val, acc, seen_terms, seen_objs, depth + 1)
+        return
+    if isinstance(v, SChoice):
+        _consts_of_term(v.idx, acc, seen_terms)
+        for a in v.alts:
+            _consts_of_value(a, acc, seen_terms, seen_objs, depth + 1)
+        return
+    if isinstance(v, (list, tuple, set, frozenset)):
+        for x in v:
+            _consts_of_value(x, acc, seen_terms, seen_objs, depth + 1)
+        return
+    if isinstance(v, dict):
+        for x in v.values():
+            _consts_of_value(x, acc, seen_terms, seen_objs, depth + 1)
+        return
+    import types as _types
+    if isinstance(v, (_types.FunctionType, _types.ModuleType, _types.BuiltinFunctionType)):
+        return
+    for attr in ('__dict__',):
+        d = getattr(v, attr, None)
+        if isinstance(d, dict):
+            for x in list(d.values()):
+                _consts_of_value(x, acc, seen_terms, seen_objs, depth + 1)
+    sl = getattr(type(v), '__slots__', None)
+    if sl:
+        for k in type(v).__mro__:
+            for name in getattr(k, '__slots__', ()) or ():
+                try:
+                    _consts_of_value(getattr(v, name), acc, seen_terms, seen_objs, depth + 1)
+                except AttributeError:
+                    pass
+
+
+def forget_dead_pieces(interp):
+    """At a loop head (after the havoc): string pieces introduced by earlier decompositions that no live
+    value refers to any more are existential witnesses of facts about the past (e.g. the position found by
+    a `find` whose result was just havocked).  The conjuncts of the path condition that mention such dead
+    pieces are dropped, and the decomposition registry forgets them, so that new slices of the same string
+    are not related to stale boundaries.  Dropping assumptions only weakens what obligations are proved
+    from: it is sound, and keeps the string solvers away from aligning unrelated decompositions."""
+    st = interp.st
+    pieces = st.ghost.get('__pieces__')
+    if not pieces or os.environ.get('PYVC_KEEP_DEAD_PIECES'):
+        return
+    live = set()
+    seen_terms, seen_objs = set(), set()
+    for fr in interp.frame_stack:
+        _consts_of_value(fr.locals, live, seen_terms, seen_objs)
+        for d in fr.enclosing:
+            _consts_of_value(d, live, seen_terms, seen_objs)
+    _consts_of_value(interp.reg.ghost_env, live, seen_terms, seen_objs)
+    _consts_of_value(getattr(interp, 'root_values', None), live, seen_terms, seen_objs)
+    _consts_of_value(st.trace, live, seen_terms, seen_objs)
+    _consts_of_value([v for k, v in st.ghost.items() if not (isinstance(k, str) and k.startswith('__'))
+                      and not isinstance(k, tuple)], live, seen_terms, seen_objs)
+    if interp.collect is not None:
+        _consts_of_value(interp.collect[1], live, seen_terms, seen_objs)
+    # obligations recorded so far keep their own copy of the path condition
+    conj = []
+    for t in list(st.pc) + list(st.scopes):
+        acc = set()
+        _consts_of_term(t, acc, set())
+        conj.append(acc & set(pieces))
+    live_pieces = set(pieces) & live
+    changed = True
+    while changed:
+        changed = False
+        for acc in conj:
+            if acc and (acc & live_pieces) and not acc <= live_pieces:
+                live_pieces |= acc
+                changed = True
+    dead = set(pieces) - live_pieces
+    if not dead:
+        return
+    n_pc = len(st.pc)
+    keep = [t for t, acc in zip(st.pc, conj[:n_pc]) if not (acc & dead)]
+    if len(keep) != n_pc:
+        st.reset_pc(keep)
+    for i in dead:
+        pieces.pop(i, None)
+
+    def dead_term(x):
+        acc = set()
+        _consts_of_term(x, acc, set())
+        return bool(acc & dead)
+
+    decs = st.ghost.get('__decomps__')
+    if decs:
+        for key in list(decs):
+            t, lst = decs[key]
+            if dead_term(t):
+                del decs[key]
+                continue
+            lst[:] = [pcs for pcs in lst if not any(dead_term(p) for p in pcs)]
+    sl = st.ghost.get('__slices__')
+    if sl:
+        for key in list(sl):
+            res, t = sl[key][0], sl[key][1]
+            if dead_term(t) or (isinstance(res, Sym) and dead_term(_s(res))):
+                del sl[key]
+    tw = st.ghost.get('__takewhile__')
+    if tw:
+        for key in list(tw):
+            r, _d, t = tw[key]
+            if dead_term(t) or (isinstance(r, Sym) and dead_term(_s(r))):
+                del tw[key]
+    fc = st.ghost.get('__finds__')
+    if fc:
+        for key in list(fc):
+            r, _d, t = fc[key]
+            if dead_term(t) or (isinstance(r, Sym) and dead_term(_s(r))):
+                del fc[key]
+    cc = st.ghost.get('__concats__')
+    if cc:
+        cc[:] = [(w, ps, sc) for (w, ps, sc) in cc if not dead_term(w) and not any(dead_term(p) for p in ps)]
